@@ -63,11 +63,10 @@ Section Loop.
     | Some _ => Ok st (if skip st then [] else [wr (render1 (TEnd n))])
     | None =>
       let matched := existsb (fun e => mmatch I (snd (fst e)) n) (elsMatchingAndAttrs p) in
-      let skip1 := if matched then false else skip st in
       let '(cnt, skip2) :=
         if mem n (elsSkipContent p) && negb matched
-        then ((skipCount st - 1)%Z, if Z.eqb (skipCount st - 1) 0 then false else skip1)
-        else (skipCount st, skip1) in
+        then ((skipCount st - 1)%Z, if Z.eqb (skipCount st - 1) 0 then false else skip st)
+        else (skipCount st, skip st) in
       let st' := {| skip := skip2; skipCount := cnt; skipClosing := skipClosing st; stack := stack st; recent := recent st |} in
       if matched then Ok st' (if skip2 then [] else [wr (render1 (TEnd n))])
       else Ok st' space_if_adding
@@ -77,7 +76,7 @@ Section Loop.
     match t with
     | TDoctype _ => Ok st []
     | TComment _ =>
-      if allowComments p then Ok st [{| checked := false; data := render1 t |}] else Ok st []
+      if allowComments p && negb (skip st) then Ok st [wr (render1 t)] else Ok st []
     | TStart n a =>
       let st := set_recent st (normalise n) in
       if is_script_or_style n && negb (allowUnsafe p) then Ok st [] else
@@ -114,6 +113,7 @@ Section Loop.
         end
       else end_tail st n
     | TSelf n a =>
+      let st := set_recent st (normalise n) in
       if is_script_or_style n && negb (allowUnsafe p) then Ok st [] else
       match element_policies n with
       | None => Ok st space_if_adding
